@@ -810,6 +810,12 @@ func ruleNotificationErrorsDropped(c *chk.Ctx, d *dispatchModel) {
 
 func ruleSemaphore(c *chk.Ctx, d *dispatchModel) {
 	f := d.invoke
+	for _, pr := range c.M.Scoped {
+		c.Undecided("ANCHOR", nil, pr, 0, "anchor resolution failed: %s", pr)
+	}
+	if c.M.SSem == nil {
+		return
+	}
 	isSem := func(ci ssa.CallInstruction, m string) bool {
 		cc := ci.Common()
 		return ir.IsCallTo(cc, "(*golang.org/x/sync/semaphore.Weighted)."+m) && len(cc.Args) > 0 && chk.LoadsField(cc.Args[0], c.M.SSem)
